@@ -33,6 +33,29 @@ pub trait Store: GarnishData<Size = usize, Number = SimpleNumber, Char = char, B
     }
 }
 
+/// what an interrupted host or a failed conversion leaves behind: a list that was STARTED and given
+/// items but never ended (the list holds pairs keyed by the identifiers the generators use, so a leak shows in look-ups)
+pub fn abandon_constructions<D: Store>(d: &mut D) {
+    use garnish_lang_simple_data::symbol_value as symbol_value_of;
+    let _ = (|| -> Result<(), DataError> {
+        let mut items = vec![];
+        for (name, v) in [("a", 91), ("b", 92), ("x", 93), ("count", 94), ("name", 95), ("k", 96)] {
+            let s = d.add_symbol(symbol_value_of(name))?;
+            let n = d.add_number(SimpleNumber::Integer(v))?;
+            items.push(d.add_pair((s, n))?);
+        }
+        items.push(d.add_number(SimpleNumber::Integer(9))?);
+        let mut l = d.start_list(items.len())?;
+        for (k, it) in items.iter().enumerate() {
+            if k + 1 < items.len() {
+                l = d.add_to_list(l, *it)?;       // one item short of the announced length, and no end_list
+            }
+        }
+        let _ = l;
+        Ok(())
+    })();
+}
+
 fn defer_impl<D: Store>(data: &mut D, host_mode: u8, op: Instruction, l: (GarnishDataType, usize), r: (GarnishDataType, usize)) -> (String, Result<bool, DataError>) {
     // unary operations pass the documented filler (Unit, 0): address 0 is not a value of the operation
     let rr = if r.0 == GarnishDataType::Unit { "U".to_string() } else { render(data, r.1, 0) };
